@@ -51,6 +51,8 @@ def make_X(lay, pops, perm=None):
     member = np.array(member)
     if perm is not None:
         xy, member = xy[perm], member[perm]
+    if lay.get("pixel"):
+        xy = xy.astype(lay["pixel"])
     return xy, member
 
 
@@ -67,7 +69,7 @@ def check_partition(ctx, n, train, test, member, what):
 
 def kfold_body(case, ctx):
     lay = dict(W=case.get("W", 0.0), S=case.get("S", 0.0), dx=case.get("dx", 1.0), dy=case.get("dy", 1.0), nb_n=case["nb_n"], nb_e=case["nb_e"],
-               pres=case.get("pres", "inferred"), te=case.get("te", 0.0), tn=case.get("tn", 0.0))
+               pres=case.get("pres", "inferred"), te=case.get("te", 0.0), tn=case.get("tn", 0.0), pixel=case.get("pixel"))
     pops = case["pops"]
     X, member = make_X(lay, pops, case.get("perm"))
     kw = blocks.verde_kwargs(lay)
@@ -181,6 +183,11 @@ def random_layout_case(draw, max_pop=30):
                 dx=draw(st.sampled_from([1.0, 0.5, 10.0, 3.3])), dy=draw(st.sampled_from([1.0, 0.5, 10.0, 7.7])),
                 pres=draw(st.sampled_from(["inferred", "inferred_spacing"])), te=draw(st.sampled_from([0.0, 0.3, -0.3])), tn=draw(st.sampled_from([0.0, 0.3, -0.3])),
                 perm=draw(st.permutations(range(n))), seed=draw(st.one_of(st.integers(0, 2**31 - 1), st.sampled_from([0, 1, 42]))))
+    pixel = draw(st.sampled_from(blocks.PIXEL_DTYPES))
+    if pixel:
+        # integer-valued coordinates in a narrow / unsigned / single-precision dtype on an integer block grid
+        case.update(pixel=pixel, W=float(draw(st.integers(0, 500))), S=float(draw(st.integers(0, 500))), dx=float(draw(st.sampled_from([2, 3, 4, 5, 8, 10, 20]))),
+                    dy=float(draw(st.sampled_from([2, 3, 4, 5, 8, 10, 20]))))
     return case
 
 
@@ -215,7 +222,7 @@ def shuffle_random(draw):
 
 
 def shuffle_body(case, ctx):
-    lay = dict(W=case["W"], S=case["S"], dx=case["dx"], dy=case["dy"], nb_n=case["nb_n"], nb_e=case["nb_e"], pres=case["pres"], te=case["te"], tn=case["tn"])
+    lay = dict(W=case["W"], S=case["S"], dx=case["dx"], dy=case["dy"], nb_n=case["nb_n"], nb_e=case["nb_e"], pres=case["pres"], te=case["te"], tn=case["tn"], pixel=case.get("pixel"))
     X, member = make_X(lay, case["pops"], case.get("perm"))
     kw = blocks.verde_kwargs(lay)
     mem = blocks.exact_membership(X[:, 0], X[:, 1], kw, (X[:, 0], X[:, 1]))
